@@ -38,6 +38,10 @@ EXT_RAISES = {
     "math.ceil": ("OverflowError", "ValueError"), "math.trunc": ("OverflowError", "ValueError"),
     "math.fmod": ("ValueError",), "math.isfinite": (), "math.isinf": (), "math.isnan": (), "math.gcd": (),
     "math.isclose": (), "math.copysign": (), "math.fabs": (), "math.remainder": ("ValueError",),
+    "urlsplit": ("ValueError",), "urlparse": ("ValueError",), "urllib.parse.urlsplit": ("ValueError",),
+    "urllib.parse.urlparse": ("ValueError",), "parse.urlsplit": ("ValueError",), "parse.urlparse": ("ValueError",),
+    "urllib.parse.unquote": (), "unquote": (), "urllib.parse.quote": (), "quote": (),
+    "ipaddress.ip_network": ("ValueError",), "ip_address": ("ValueError",), "ip_network": ("ValueError",),
     "json.loads": ("ValueError",), "json.dumps": ("ValueError", "OverflowError"),
     "loads": ("ValueError",), "dumps": ("ValueError", "OverflowError"),
     "open": ("OSError",), "materialize": ("Exception",), "RefDict.from_uri": ("Exception",),
@@ -401,7 +405,7 @@ class Escape:
             # rendering a caller-supplied value as text: int -> str conversion is bounded by
             # sys.get_int_max_str_digits() (ValueError beyond 4300 digits since CPython 3.11)
             v = n.value if isinstance(n, ast.FormattedValue) else n.args[0]
-            if isinstance(v, ast.Name) and self._is_value_param(v.id, f):
+            if (isinstance(v, ast.Name) and self._is_value_param(v.id, f)) or self._may_render_huge_int(v, f, n):
                 o = self._origin(f, n, "partial", norm(n) if not isinstance(n, ast.FormattedValue) else "{" + norm(v) + "}")
                 out.setdefault(("ValueError", o), None)
         elif isinstance(n, ast.AugAssign) and isinstance(n.op, (ast.Div, ast.FloorDiv, ast.Mod, ast.Pow)):
@@ -411,6 +415,53 @@ class Escape:
         return out
 
     VALUE_PARAM_NAMES = ("value", "data", "sub_value", "instance")
+    TEXT_SAFE_ATTRS = ("__name__", "__qualname__", "name", "source", "annotation", "message", "args")
+
+    def _message_site(self, f, n):
+        """Is `n` part of the construction of an exception message?  (a method of an exception class, an
+        `error_message` method, or an argument of a raised / exception-building call)"""
+        if f.name == "error_message":
+            return True
+        if f.cls is not None and any(b in ("Exception", "BaseException") for b in f.cls.ext_bases()):
+            return True
+        P = self._parents[f]
+        cur = P.parent.get(id(n))
+        while cur is not None and not isinstance(cur, ast.stmt):
+            if isinstance(cur, ast.Call):
+                d = dotted(cur.func) or ""
+                head = d.split(".")[0]
+                r = self.prog.resolve_in(f, head) if head else None
+                if r and r[0] == "class" and any(b in ("Exception", "BaseException") for b in r[1].ext_bases()):
+                    return True
+            cur = P.parent.get(id(cur))
+        return isinstance(cur, ast.Raise)
+
+    def _may_render_huge_int(self, v, f, n):
+        """Rendering `v` into an exception message may have to convert an arbitrarily large integer (taken from the
+        schema or the value) to text: ValueError beyond sys.get_int_max_str_digits() digits."""
+        if not self._message_site(f, n):
+            return False
+        if isinstance(v, (ast.Constant, ast.JoinedStr)):
+            return False
+        if isinstance(v, ast.Attribute) and v.attr in self.TEXT_SAFE_ATTRS:
+            return False
+        if isinstance(v, ast.Call):
+            d = dotted(v.func) or ""
+            if d == "repr" and v.args:
+                return self._may_render_huge_int(v.args[0], f, v)
+            if d.split(".")[-1] in ("_safe_repr", "len", "type", "join", "format", "lstrip", "rstrip", "strip", "lower", "upper",
+                                     "title", "sorted_names"):
+                return False
+        ts = self.inf.type_of(v, f)
+        def safe(t):
+            if t in (("b", "str"), ("b", "bool"), ("b", "none"), ("b", "float"), ("b", "NoneType")) or t[0] in ("cls", "mod", "fn", "rawfn"):
+                return True
+            if t[0] == "inst" and hasattr(t[1], "ext_bases") and any(b in ("Exception", "BaseException") for b in t[1].ext_bases()):
+                return True  # the text of an exception that was already built
+            return False
+        if ts and all(safe(t) for t in ts):
+            return False
+        return True
 
     def _is_value_param(self, name, f):
         """`name` is a parameter that carries the caller's (JSON) value."""
